@@ -242,7 +242,7 @@ func checkC03(c *Ctx) {
 	R.Floor("C03-nonnil-handler", 8)
 	// both callers pass a non-nil request
 	for _, ci := range callSites(shipped, isMuxServe) {
-		R.Check(isThisRequest(an.Strip(ci.Common().Args[2]), m) && an.InstrDominates(m.readReq, ci) || ci.Parent() == m.reqFn && isThisRequest(an.Strip(ci.Common().Args[2]), m), "C03-once", fname(ci.Parent())+": serve gets the error-checked request", c.pos(ci), "req is readRequest's result on the err == nil path (readRequest returns a fresh *Request then)", "serve can be called with a request that is not the checked result of readRequest")
+		R.Check(isThisRequest(an.StripX(ci.Common().Args[2]), m) && an.InstrDominates(m.readReq, ci) || ci.Parent() == m.reqFn && isThisRequest(an.StripX(ci.Common().Args[2]), m), "C03-once", fname(ci.Parent())+": serve gets the error-checked request", c.pos(ci), "req is readRequest's result on the err == nil path (readRequest returns a fresh *Request then)", "serve can be called with a request that is not the checked result of readRequest")
 	}
 
 	// ------------------------------------------------------------ match predicates
@@ -675,7 +675,7 @@ func (c *Ctx) checkDispatch(m *serverModel) {
 				}
 			}
 			args := sc[0].Common().Args
-			ok = ok && isThisIterationWriter(an.Strip(args[1]), m) && isThisRequest(an.Strip(args[2]), m)
+			ok = ok && isThisIterationWriter(an.StripX(args[1]), m) && isThisRequest(an.StripX(args[2]), m)
 		}
 		R.Check(ok, "C03-dispatch", fname(m.reqFn)+": serve(w, r) exactly once", c.P.Pos(m.reqFn.Pos()), "one call on every path with this iteration's writer and request", "the per-request goroutine does not call router.serve exactly once with this iteration's (w, r)")
 	}
